@@ -31,8 +31,13 @@ def bl(s):
 def run(ctx):
     n = 120 if ctx.thorough() else 40
     proof_ok, detail = True, {}
-    r = ctx.props()
-    if not r["ok"]:
+    okt, out = ctx.regen(["clientmonitor"])
+    if not okt:
+        proof_ok = False
+        detail["translator"] = out[-2000:]
+        ctx.log("translator failed: " + out[-800:])
+    r = ctx.props() if okt else {"ok": False, "failed_at": None, "log": "translator failed"}
+    if okt and not r["ok"]:
         proof_ok = False
         detail["coq"] = r["failed_at"] or r["log"][-1500:]
     if ctx.thorough() and proof_ok:
